@@ -248,7 +248,8 @@ impl Mon {
                             let n_close = pr.n_spot?;
                             let realised = pnl(pr.long, n_close, pr.notional);
                             let old_equity = pr.equity(&realised);
-                            if old_equity.is_neg() || w.cfg.native {
+                            // (a closed leg that is under water pays its debt on top of the new margin: the same formula)
+                            if w.cfg.native {
                                 return None;
                             }
                             let vc = &s.pre.v[*v].cfg;
@@ -352,6 +353,9 @@ pub fn prop() -> HistProp {
     w.balance = 4;
     // a run of funding periods settled one after the other (the per-market list of cumulative fractions grows long)
     w.burst = 2;
+    // the vAMM's owner changes the funding TWAP interval, fees and band in between, closes and re-opens the market
+    w.vcfg = 2;
+    w.setopen = 1;
     let mut p = CfgProfile::general();
     // one deployment in four reads its oracle from the repository's own price feed (the funding path only needs its TWAP)
     p.real_feed = None;
